@@ -114,11 +114,23 @@ fn model_gnd(t: &[usize], zs: &[f32], perims: &[(f32, f32)], slabs: &[(f32, f32)
     let slab = if t[7] == 0 { uid("slab0") } else { uid("slab1") };
     let tilt = TILTS[t[0]];
     let is_bottom = crate::ind::tilt_class(tilt as f64) == crate::ind::TiltC::Bottom;
+    // every other configuration lays the ground floor as three slabs: half of it, and two quarters of which one has
+    // the other slab construction (two slabs share a construction, the third differs)
+    let three = (t[3] + t[4] + t[6]) % 2 == 1;
+    let other = if t[7] == 0 { uid("slab1") } else { uid("slab0") };
     if is_bottom {
         // the subject IS the slab
-        m.walls.push(wall("X", BoundaryType::GROUND, c, uid("A"), None, geom(tilt, 0.0, None, rect(l, w))));
+        m.walls.push(wall("X", BoundaryType::GROUND, c, uid("A"), None, geom(tilt, 0.0, None, rect(if three { l / 2.0 } else { l }, w))));
+        if three {
+            m.walls.push(wall("X2", BoundaryType::GROUND, c, uid("A"), None, geom(tilt, 0.0, None, rect(l / 4.0, w))));
+            m.walls.push(wall("A_F3", BoundaryType::GROUND, other, uid("A"), None, geom(180.0, 0.0, None, rect(l / 4.0, w))));
+        }
     } else {
-        m.walls.push(wall("A_F", BoundaryType::GROUND, slab, uid("A"), None, geom(180.0, 0.0, None, rect(l, w))));
+        m.walls.push(wall("A_F", BoundaryType::GROUND, slab, uid("A"), None, geom(180.0, 0.0, None, rect(if three { l / 2.0 } else { l }, w))));
+        if three {
+            m.walls.push(wall("A_F2", BoundaryType::GROUND, slab, uid("A"), None, geom(180.0, 0.0, None, rect(l / 4.0, w))));
+            m.walls.push(wall("A_F3", BoundaryType::GROUND, other, uid("A"), None, geom(180.0, 0.0, None, rect(l / 4.0, w))));
+        }
     }
     // perimeter walls: share of exterior
     let b = |exposed: bool| if exposed { BoundaryType::EXTERIOR } else { BoundaryType::ADIABATIC };
@@ -199,6 +211,9 @@ fn check_wall(ctx: &Ctx, m: &Model, wname: &str, case: &dyn Fn() -> Value, acc: 
         if let Some(w2) = q.walls.iter().find(|w| w.name == wname) {
             acc.n += 1;
             if let Ok(g2) = catch(std::panic::AssertUnwindSafe(|| w2.u_value(&q))) {
+                // (the reference is taken on the re-ordered model: with several ground slabs in a space the characteristic
+                // dimension is the first slab's - the open finding recorded under C08 - in the code and in the reference alike)
+                let exp = uref::u_ref(&q, w2);
                 let ok = match (g2, &exp) {
                     (None, None) => true,
                     (Some(g), Some(iv)) => !iv.nominal.is_finite() || (g.is_finite() && iv.contains(g as f64)),
@@ -347,7 +362,7 @@ pub fn run(ctx: &Ctx) -> i32 {
     ctx.note("branches_reached", json!(b));
     ctx.finish(
         "model_checking",
-        "dependent full products per boundary kind: EXTERIOR/ADIABATIC: tilt{0,45,60,60.01,90,119.99,120,180,270} x layer stack{[], [ins], [R-only], [ins,R-only], [massive], missing material, lambda=0, missing construction (+2 in thorough)} x space kind(3); INTERIOR: x neighbour{conditioned, unconditioned, uninhabited, none, dangling} x n_v{given, not} x building ventilation{given, not} x slab insulation x neighbour depth x owner side (the height of the conditioned space alternates 3.0 / 4.5 m, the partition's own size 4x3 / 2.5x2 m and a window in it, with the configuration index); GROUND: x burial depth z x perimeter insulation (D,Rn) x slab size x exposed-perimeter share x slab insulation (the subject is the slab itself for floor tilts); + monotonicity variants (extra layer, extra R-only layer, first layer doubled) for air-contact elements and partitions; + every wall of the 7 shipped models; for every 4th model (all in thorough) also the U-value reported in EnergyIndicators.props.walls for every wall of the model, and the subject's U-value with walls, spaces and windows stored in another order (constructions shared between boundary kinds and tilts); oracle: f64 formulas of EN ISO 6946/13370/13789 with the rounding-interval rule; non-trivial = a U-value is defined",
+        "dependent full products per boundary kind: EXTERIOR/ADIABATIC: tilt{0,45,60,60.01,90,119.99,120,180,270} x layer stack{[], [ins], [R-only], [ins,R-only], [massive], missing material, lambda=0, missing construction (+2 in thorough)} x space kind(3); INTERIOR: x neighbour{conditioned, unconditioned, uninhabited, none, dangling} x n_v{given, not} x building ventilation{given, not} x slab insulation x neighbour depth x owner side (the height of the conditioned space alternates 3.0 / 4.5 m, the partition's own size 4x3 / 2.5x2 m and a window in it, with the configuration index); GROUND: x burial depth z x perimeter insulation (D,Rn) x slab size x exposed-perimeter share x slab insulation (the subject is the slab itself for floor tilts; every other configuration lays the ground floor as three slabs, two sharing a construction); + monotonicity variants (extra layer, extra R-only layer, first layer doubled) for air-contact elements and partitions; + every wall of the 7 shipped models; for every 4th model (all in thorough) also the U-value reported in EnergyIndicators.props.walls for every wall of the model, and the subject's U-value with walls, spaces and windows stored in another order (constructions shared between boundary kinds and tilts); oracle: f64 formulas of EN ISO 6946/13370/13789 with the rounding-interval rule; non-trivial = a U-value is defined",
         true,
         json!({}),
     )
